@@ -23,7 +23,9 @@ RULE = (
     " then success or not, then peer-initiated closes of every open connection in every order (each followed by a probe"
     " request on the connection in use), then close() / shutdown() (also twice). The open-connection set is checked at a"
     " quiescent point every 0.5 virtual seconds. Plus a CLOSE SWEEP: close() started at every loop-iteration index of base"
-    " scenarios (mid-connect, mid-verify, in back-off, idle, request in flight, already closed). Distinct by (outcome"
+    " scenarios (mid-connect, mid-verify, in back-off, idle, request in flight, already closed). Plus a LATE-LOSS family: an"
+    " abandoned connection whose close asyncio deferred (write buffer backed up behind a peer that stopped reading) dies"
+    " only after a newer connection is in use. Distinct by (outcome"
     " sequence, ending, sweep index); non-trivial = at least one failed attempt or a sweep index > 0."
 )
 ASSUMPTIONS = [
@@ -34,7 +36,7 @@ ASSUMPTIONS = [
 SHARDS = {"quick": 16, "thorough": 16}
 TIMEOUT = {"quick": 900, "thorough": 7200}
 MIN_CASES = {"quick": 1500, "thorough": 30000}
-REQUIRED_COUNTERS = ["quiescent_checks", "failed_setups_closed", "closes_returned_normally", "close_sweep_points", "peer_close_probes", "auth_failure_then_close"]
+REQUIRED_COUNTERS = ["quiescent_checks", "failed_setups_closed", "closes_returned_normally", "close_sweep_points", "peer_close_probes", "auth_failure_then_close", "late_loss_probes"]
 
 FAILS = [
     "refuse", "blackhole", "bad_sig", "bad_tag", "wrong_id", "missing_field", "wrong_state", "bad_key_len",
@@ -307,6 +309,101 @@ class Run:
             self.violation("close-raises", f"second close() raised {type(ex).__name__}: {ex}")
 
 
+async def run_late_loss(ctx, variant: int) -> None:
+    """Late loss of an abandoned connection whose close was deferred by a backed-up write buffer.
+
+    connected (conn 1) -> the accessory stops reading, a large request backs up in the controller's transport buffer ->
+    the connection is abandoned (close(), or a wrong answer ends it) while bytes are still queued, so asyncio defers
+    connection_lost -> an external trigger re-opens the pairing (conn 2, in use) -> only now conn 1 dies (peer resets).
+    The connection in use must not be disturbed and no new attempt may start.
+    """
+    import socket
+
+    from vf import simnet, vloop
+
+    rng = ctx.grng("C11.late", variant)
+    replay = {"late_loss": variant}
+    ctx.case("late-loss", variant, sample={"family": "late loss of an abandoned connection (deferred close)", "variant": variant}, kind="late-loss")
+    w = simnet.World(rng)
+    log = simnet.ConnectOnceLog(w).install()
+    try:
+        await asyncio.wait_for(w.connection.ensure_connection(), 30)
+        await vloop.settle()
+        conn1 = w.accessory.conns[-1]
+        tr1 = w.connection.transport
+        tr1.get_extra_info("socket").setsockopt(socket.SOL_SOCKET, socket.SO_SNDBUF, 2048)
+        conn1.transport.pause_reading()
+        big = asyncio.ensure_future(w.connection.put("/x/big", bytes(300_000 + 1000 * variant)))
+        big.add_done_callback(lambda f: f.cancelled() or f.exception())
+        await vloop.settle()
+        if tr1.get_write_buffer_size() == 0:
+            ctx.count("late_loss_buffer_not_backed_up")
+            return
+        if variant % 2 == 0:
+            await asyncio.wait_for(w.pairing.close(), 60)
+        else:
+            big.cancel()  # a cancelled request abandons the connection (write_eof + close, deferred as well)
+            await vloop.settle()
+            await asyncio.wait_for(w.pairing.close(), 60)
+        await vloop.settle()
+        # external trigger: the accessory is seen again by zeroconf
+        w.pairing._async_description_update(w.description(w.hosts))
+        # (pair-verify on the new connection queues behind the stuck request until that request's own 30 s timer fires)
+        for _ in range(90):
+            await asyncio.sleep(0.5)
+            await vloop.settle()
+            if w.connection.is_connected:
+                break
+        if not w.connection.is_connected:
+            ctx.count("late_loss_no_second_connection")
+            return
+        conn2 = w.accessory.conns[-1]
+        r = await asyncio.wait_for(w.connection.get_json("/accessories"), 45)
+        n_act = len(log.activations)
+        pending = None
+        if variant % 3 == 0:
+            # a request is in flight on the connection in use while the old one dies
+            conn2.script.responder = lambda c, rq: rq["target"].startswith("/x/hold")
+            pending = asyncio.ensure_future(w.connection.get("/x/hold"))
+            pending.add_done_callback(lambda f: f.cancelled() or f.exception())
+            await vloop.settle()
+        # now the abandoned connection finally dies
+        if variant % 4 < 2:
+            conn1.transport.abort()
+        else:
+            conn1.transport.resume_reading()
+            conn1.close()
+        await vloop.settle()
+        await asyncio.sleep(1.0)
+        await vloop.settle()
+        ctx.count("late_loss_probes")
+        if not conn2.is_open or len(log.activations) != n_act:
+            ctx.violation("late-loss-of-abandoned-connection-disturbs-connection-in-use",
+                          f"variant {variant}: after the abandoned connection died late, connection in use open={conn2.is_open}, new attempts={len(log.activations) - n_act}", replay)
+            return
+        if pending is not None:
+            if pending.done():
+                ctx.violation("late-loss-of-abandoned-connection-fails-request-in-flight", f"variant {variant}: the request in flight on the connection in use ended: {pending.exception()!r}", replay)
+                return
+            conn2.send(conn2.http(204))
+            await vloop.settle()
+        try:
+            r = await asyncio.wait_for(w.connection.get_json("/accessories"), 45)
+        except Exception as ex:  # noqa: BLE001
+            ctx.violation("late-loss-of-abandoned-connection-disturbs-connection-in-use", f"variant {variant}: probe request failed: {ex!r}", replay)
+            return
+        await asyncio.wait_for(w.pairing.shutdown(), 60)
+        await vloop.settle()
+        if [c for c in w.accessory.open_conns if c is not conn1]:
+            ctx.violation("connection-open-after-close", f"variant {variant}: connections open after shutdown", replay)
+    finally:
+        log.remove()
+        for c in w.accessory.conns:
+            if c.transport is not None:
+                c.transport.abort()
+        await w.close()
+
+
 def history_plan(ctx):
     plans = []
     maxlen = ctx.pick(2, 3)
@@ -363,6 +460,9 @@ def run(ctx) -> None:
             n = rng.randint(3, 5)
             plan = [rng.choice(FAILS) for _ in range(n)]
             await run_history(ctx, 10_000_000 + k * ctx.nshards + ctx.shard, plan, rng.choice(["ok", "ok", "refuse"]))
+        for v in range(ctx.pick(24, 120)):
+            if ctx.mine(v):
+                await run_late_loss(ctx, v)
         # close sweep
         idx = 0
         stride = ctx.pick(2, 1)
@@ -395,6 +495,9 @@ def replay(ctx, d) -> None:
     from vf import vloop
 
     async def main():
+        if d.get("late_loss") is not None:
+            await run_late_loss(ctx, d["late_loss"])
+            return
         if d.get("sweep_at") is not None:
             await run_sweep(ctx, d["sweep_base"], d["sweep_at"])
         else:
